@@ -110,7 +110,7 @@ def conformal_cycle(model, cyc, v, zero):
     return float(res.obj)
 
 
-def run_case(base, case, acc):
+def run_case(base, case, acc, rec_override=None):
     import cobra
     import pandas as pd
     from cobra.flux_analysis import loopless_solution, pfba
@@ -137,6 +137,8 @@ def run_case(base, case, acc):
             r["obj"] = 1
             rec["direction"] = "min"
             acc.count("models_whose_largest_bound_is_a_lower_bound")
+    if rec_override is not None:
+        rec = rec_override
     lab, res = gen.classify(rec)
     if lab["status"] != "optimal":
         acc.count("skipped_no_optimum")
@@ -267,7 +269,7 @@ def run_case(base, case, acc):
             continue
 
     # ------------------------------------------------------------ add_loopless
-    if len(cyc.cycle_rxns) <= 6 and rng.random() < 0.6:
+    if len(cyc.cycle_rxns) <= 6 and (rng.random() < 0.6 or rec_override is not None):
         bounds = {r.id: r.bounds for r in model.reactions}
         orients = cyc.feasible_orientations(bounds, limit=6)
         P = oracles.Problem(model)
@@ -320,7 +322,16 @@ def run_case(base, case, acc):
         acc.sample({"n_reactions": len(rids), "cycle_reactions": cyc.cycle_rxns, "direction": rec["direction"], "starts": sorted(starts)})
 
 
+def run_probe(pr, acc):
+    run_case(-1, 0, acc, rec_override=pr["recipe"])
+    acc.count("probes_run")
+
+
 def run_shard(desc, acc):
+    if desc.get("kind") == "probes":
+        for pr in desc["probes"]:
+            run_probe(pr, acc)
+        return
     first = desc.get("first", 0)
     for case in range(first, first + desc["cases"]):
         run_case(desc["base"], case, acc)
